@@ -805,6 +805,7 @@ func aBuilders«$p.P»(t *testing.T) {
 		c := aBegin(rt, rec, ad, "C01|«$p.Pkg».ApplicativeFunctor«$m».«$meth»|ref")
 		x := c.drawX("«$meth»")
 		ds := c.vals("a", «sub $m 1»)
+		c.noFallible("«$meth»", ds)
 		c.start()
 		var got aRes
 		c.guard(func() {
@@ -819,6 +820,7 @@ func aBuilders«$p.P»(t *testing.T) {
 		x := c.drawX("«$meth»")
 		k := c.pick("prefix", «add (min 2 (sub 9 $m)) 1»)
 		ds := c.vals("a", k+«sub $m 1»)
+		c.noFallible("«$meth»", ds)
 		c.start()
 		var got aRes
 		c.guard(func() {
